@@ -104,6 +104,39 @@ def _mp(c_or_l, a):
     return c_or_l.run.env['marginal_prediction'].t if False else None
 
 
+# ---- per-feature chain contributions (C05: "each value is the average over observations of that feature's chain contribution")
+DictList = TList(NumDict)
+CCOL = z3.Function('contribution_column', z3.ArraySort(z3.IntSort(), NumDict.sort()), KeyS, z3.ArraySort(z3.IntSort(), z3.RealSort()))
+
+
+def ccol_axioms():
+    """spec function: CCOL(CS, f)[i] = CS[i][f] - feature f's chain contribution in the i-th explained observation"""
+    a = z3.Const('cc!a', z3.ArraySort(z3.IntSort(), NumDict.sort()))
+    k = z3.Const('cc!k', KeyS)
+    i = z3.Int('cc!i')
+    return [sym.forall([a, k, i], CCOL(a, k)[i] == NumDict.val(a[i])[k], [CCOL(a, k)[i]])] + \
+        lemmas.ssum_succ_axiom() + lemmas.ssum_congr_axiom()
+
+
+def _chain_ghosts():
+    """inner (chain) loop: LP = loss before the current step; MC[f] = loss before - loss after f joined the coalition"""
+    return {'LP': (TNum, lambda l: l.v.loss_previous, lambda l: l.v.loss_previous),
+            'MC': (NumDict, lambda l: NumDict.empty(),
+                   lambda l: NumDict.mk(z3.Store(l.g.MC.dom, ex.pack_key(l.elem), True),
+                                        z3.Store(l.g.MC.val, ex.pack_key(l.elem), l.g.LP - l.v.loss_previous)))}
+
+
+def _chain_inv():
+    return {
+        'lp': lambda l: l.g.LP == l.v.loss_previous,
+        'mc_dom': lambda l: forall_key(lambda k: l.g.MC.dom[k] == ex._perm_before(l.v.permutation_chain, l.i)(k),
+                                       pats=lambda k: [l.g.MC.dom[k]]),
+        # every feature is credited exactly its own chain contribution (and nothing else)
+        'mc_credit': lambda l: forall_key(lambda k: l.v.sage_values.val[k] == l.entry.sage_values.val[k] +
+                                          ite(l.g.MC.dom[k], l.g.MC.val[k], 0), pats=lambda k: [l.v.sage_values.val[k]]),
+    }
+
+
 def _perm_inv(l):
     chain = l.v.permutation_chain
     names = l.self.feature_names
@@ -132,6 +165,7 @@ def _inner_inv(with_set):
                                 l.v.permutation_chain.t == l.entry.permutation_chain.t,
                                 l.v.marginal_prediction.t == l.entry.marginal_prediction.t),
     }
+    inv.update(_chain_inv())
     if with_set:
         inv['remaining'] = lambda l: forall_key(
             lambda k: l.v.features_not_in_s.dom[k] == land(names_set(l.self.feature_names)(k),
@@ -143,7 +177,10 @@ def _inner_inv(with_set):
 def _outer_ghost():
     return {'PS': (TNum, lambda l: z3.RealVal(0),
                    lambda l: l.g.PS + LOSS(l.self._loss_function, l.v.y_i, l.v.marginal_prediction.t) -
-                   LOSS(l.self._loss_function, l.v.y_i, MODEL(l.self._model_function, l.v.x_i.t)))}
+                   LOSS(l.self._loss_function, l.v.y_i, MODEL(l.self._model_function, l.v.x_i.t))),
+            # CS: the per-observation chain contribution dicts, in order (the chain loop's MC at its exit)
+            'CS': (DictList, lambda l: DictList.empty(),
+                   lambda l: DictList.mk(l.g.CS.n + 1, z3.Store(l.g.CS.arr, l.g.CS.n, l.run.last_loop.g.MC.t)))}
 
 
 def _outer_inv():
@@ -154,6 +191,15 @@ def _outer_inv():
         'prefix': lambda l: land(lemmas.msum_dv(NumDict, l.v.sage_values.dom, l.v.sage_values.val) == l.g.PS,
                                  l.g.PS == BSUM(l.self._loss_function, l.self._model_function, l.a.x_data.t, l.a.y_data.t,
                                                 l.v.marginal_prediction.t, l.i)),
+        # per feature: the accumulated credit is the sum over the observations so far of that feature's chain contribution
+        'per_feature': lambda l: land(l.g.CS.n == l.i, forall_key(
+            lambda k: implies(names_set(l.self.feature_names)(k),
+                              l.v.sage_values.val[k] == lemmas.ssum(CCOL(l.g.CS.arr, k), l.i)),
+            pats=lambda k: [l.v.sage_values.val[k]])),
+        # each observation's contributions are over the feature names and telescope to its loss gap
+        'cs_rows': lambda l: forall_int(lambda j: implies(land(0 <= j, j < l.i), land(
+            forall_key(lambda k: NumDict.dom(l.g.CS.arr[j])[k] == names_set(l.self.feature_names)(k)))),
+            pats=lambda j: [l.g.CS.arr[j]]),
         'n_data': lambda l: l.v.n_data == ite(l.i == 0, l.a.x_data.n, l.i),
         'frame': lambda l: land(l.v.marginal_prediction.t == l.entry.marginal_prediction.t,
                                 l.v.n_inner_samples == l.entry.n_inner_samples, l.v.x_data.t == l.a.x_data.t,
@@ -223,7 +269,23 @@ def _many_steps():
 
     def efficiency(c):
         return _efficiency(c)
-    return [('div_pointwise', div_pointwise), ('dom_same', dom_same), ('sum_div', sum_div, ['div_pointwise', '@lemmas']),
+
+    def per_feature_exit(c):
+        # loop exit: the accumulated credits are the column sums of the contribution log
+        sage, cs = _sage_at_exit(c), c.gout.CS
+        return land(c.a.x_data.n >= 1, cs.n == c.a.x_data.n, forall_key(lambda k: implies(
+            names_set(c.old.feature_names)(k), sage.val[k] == lemmas.ssum(CCOL(cs.arr, k), c.a.x_data.n)),
+            pats=lambda k: [sage.val[k]]))
+
+    def sage_dom(c):
+        sage = _sage_at_exit(c)
+        return forall_key(lambda k: sage.dom[k] == names_set(c.old.feature_names)(k), pats=lambda k: [sage.dom[k]])
+
+    def per_feature_average(c):
+        return _per_feature_average(c)
+    return [('div_pointwise', div_pointwise), ('per_feature_exit', per_feature_exit), ('sage_dom', sage_dom),
+            ('per_feature_average', per_feature_average, ['div_pointwise', 'per_feature_exit', 'sage_dom']),
+            ('dom_same', dom_same), ('sum_div', sum_div, ['div_pointwise', '@lemmas']),
             ('prefix_total', prefix_total), ('efficiency', efficiency, ['dom_same', 'sum_div', 'prefix_total'])]
 
 
@@ -236,6 +298,14 @@ def _efficiency(c):
     return sym.forall([z3.Const('ef!mp', PredT.sort())], True) if False else \
         lemmas.msum_dv(NumDict, iv.dom, iv.val) * R(N) == BSUM(o._loss_function, o._model_function, c.a.x_data.t, c.a.y_data.t,
                                                              c.gout.MP.t, N)
+
+
+def _per_feature_average(c):
+    """C05: each returned value is the average, over the explained observations, of that feature's chain contribution
+    (CS[i][f] = loss before f joined the coalition in observation i's chain - loss after)"""
+    iv, cs, N = c.new.importance_values, c.gout.CS, c.a.x_data.n
+    return land(cs.n == N, forall_key(lambda k: implies(
+        names_set(c.old.feature_names)(k), iv.val[k] * R(N) == lemmas.ssum(CCOL(cs.arr, k), N)), pats=lambda k: [iv.val[k]]))
 
 
 def _mp_def(c):
@@ -252,22 +322,24 @@ _many_common = dict(
     modifies=['importance_values'], local_types={'predictions': PredList},
     raises={'CallbackError': {'post': {'estimates_untouched': lambda c: c.new.importance_values.t == c.old.importance_values.t}}},
     ghost_out={'MP': (PredT, lambda c: c.run.env['marginal_prediction'].t),
-               'OUTS': (PredList, lambda c: c.run.env['all_predictions'].t)},
+               'OUTS': (PredList, lambda c: c.run.env['all_predictions'].t),
+               'CS': (DictList, lambda c: c.run.last_loop.g.CS.t)},
     lemmas=_many_post_lemmas, exit_cuts=_many_steps(),
 )
 
 fn('BatchExplainer.explain_many', F + 'batch.py', src_cls='BatchSage',
-   entry_lemmas=lambda c: bsum_axioms(c.old._loss_function, c.old._model_function),
+   entry_lemmas=lambda c: bsum_axioms(c.old._loss_function, c.old._model_function) + ccol_axioms(),
    cuts={'Imputer.impute': _cut_last_empty},
    ensures={
        'efficiency': _efficiency,
+       'per_feature_average': _per_feature_average,
        'baseline_is_mean_prediction': _mp_def,
        'result_is_field': lambda c: c.res.t == c.new.importance_values.t,
        'args_unchanged': lambda c: land(c.a_new.x_data.t == c.a.x_data.t, c.a_new.y_data.t == c.a.y_data.t),
    },
    loops=[
        loop(ghosts=_outer_ghost(), inv=_outer_inv(), body=_outer_body()),
-       loop(inv=_inner_inv(True)),
+       loop(ghosts=_chain_ghosts(), inv=_inner_inv(True)),
    ], **_many_common)
 
 
@@ -303,19 +375,20 @@ _mid_inv['frame2'] = lambda l: land(l.v.x_data.t == l.a.x_data.t, l.v.n_data == 
 
 fn('BatchExplainer.explain_many_original', F + 'batch.py', src_cls='BatchSage',
    cuts={'_get_mean_model_output': lambda run, a, recv: _cut_full_coalition(run, a, recv) if run.loop_stack else True},
-   entry_lemmas=lambda c: bsum_axioms(c.old._loss_function, c.old._model_function),
+   entry_lemmas=lambda c: bsum_axioms(c.old._loss_function, c.old._model_function) + ccol_axioms(),
    **dict(_many_common, requires=dict(_many_requires(), model_reads_only_names=_reads_only_names,
                                       rows_have_names=_rows_have_names),
           local_types={'predictions': PredList, 'x_s': InstT}),
    ensures={
        'efficiency': _efficiency,
+       'per_feature_average': _per_feature_average,
        'baseline_is_mean_prediction': _mp_def,
        'result_is_field': lambda c: c.res.t == c.new.importance_values.t,
        'args_unchanged': lambda c: land(c.a_new.x_data.t == c.a.x_data.t, c.a_new.y_data.t == c.a.y_data.t),
    },
    loops=[
        loop(ghosts=_outer_ghost(), inv=_outer_inv(), body=_outer_body()),
-       loop(inv=_mid_inv),
+       loop(ghosts=_chain_ghosts(), inv=_mid_inv),
        loop(inv={
            # once the coalition covers every feature name, each inner prediction is the model's own prediction
            'preds': lambda l: land(l.v.predictions.n == l.i, implies(
